@@ -11,7 +11,7 @@ def _nontrivial(body, outs):
 
 CFG = {
     "gen_profiles": ["C10"],
-    "cases": {"quick": 400, "thorough": 4000},
+    "cases": {"quick": 600, "thorough": 6000},
     "compare": "set",
     "nontrivial": _nontrivial,
     "rule": ("cases = corpus + seeded structured treemap histories (harness gen, splitmix64 from VERIF_SEED and case index); "
@@ -38,9 +38,9 @@ CFG = {
         "whole set removed": r"^tremove_range .* => [1-9]\d*$",
     },
     "gaps": [
-        "C10_*_partial theorems assume the 32-bit refinement facts bundled in Kernel32 (insert/remove/range/push/rank/select/min/max/len/contains of RoaringBitmap refine the set operations on WF values) — to be discharged by the 32-bit core proofs (C01/C07) at merge",
-        "insert_range over >= 2 whole partitions (RoaringBitmap::full() values) is covered by the theorem only; the correspondence never executes it (a 2^32-element value does not fit the list model)",
-        "append/from_sorted_iter: proved via push_unchecked = push on accepted values only under Kernel32.pushUnchecked_spec",
+        "C10_*_partial theorems assume the 32-bit refinement facts bundled in `Kernel32` (Lemmas/TreemapKernel32.lean: insert/remove/insert_range/remove_range/push/push_unchecked/contains/len/min/max/rank/select/is_empty of RoaringBitmap refine the Spec operations on WF values) - named hypotheses, to be discharged by the 32-bit core proofs (C01/C07) at merge",
+        "proved (given Kernel32): insert, remove, contains, extend/from_iter, push, clear/new, len, is_empty, min, max, the abstraction (sortedness, membership through the partition directory) and split/join arithmetic (no hypotheses). NOT yet proved: insert_range, remove_range, append/from_sorted_iter, rank, select, from_bitmaps and the history induction (C10_history) - these are decided by the correspondence check (MODEL = SPEC column on every generated case) only",
+        "insert_range over >= 2 whole partitions (RoaringBitmap::full() values) is neither proved yet nor executed by the correspondence (a 2^32-element value does not fit the list model)",
     ],
     "assumptions": [
         "treemap correspondence bounds: <= 5 partitions (keys 0,1,3,4,u32::MAX), ranges span <= ~70000 values and touch <= 2 partitions (remove_range may span more), never a whole partition",
